@@ -4,3 +4,4 @@ pub mod report;
 pub mod sim;
 pub mod c09keys;
 pub mod sched;
+pub mod clustersim;
